@@ -56,16 +56,30 @@ def _run(tier, seed, t0, REPO):
             macro = theory.get_macro(rule)
         except Exception:
             return
-        if macro.level is None or not isinstance(macro.level, int):
-            return
+        if macro.level is None or not isinstance(macro.level, int) or macro.level == 0 or rule in ('auto', 'z3', 'sympy'):
+            return          # level 0 = trusted oracle at the default level (C05 / C06); auto / z3 call external search
         key = (rule, repr(args)[:300], repr([str(t) for t in prev_ths])[:300])
         if key in distinct:
             return
+        import signal
+
+        class _TO(Exception):
+            pass
+
+        def _alarm(*a):
+            raise _TO()
+        signal.signal(signal.SIGALRM, _alarm)
+        signal.alarm(20)
         try:
             th_e = macro.eval(args, list(prev_ths))
+        except _TO:
+            stats['no_eval'] += 1
+            return
         except Exception:
             stats['no_eval'] += 1
             return
+        finally:
+            signal.alarm(0)
         if not isinstance(th_e, Thm):
             return
         stats['evaluated'] += 1
